@@ -28,6 +28,26 @@ CLAIMED = {
  'C16': dict(
     text='Theorems: the elementwise product of the two condensed difference vectors is, position by position, |dz1|*|dz2| of the same point pair (for all n); commutativity of that product (table symmetry); binning identical to C01 (lag_class is polymorphic in the pairwise quantity). Tie: two-column Variogram configurations against the model and the brute-force oracle; cross_variograms tables (2-4 variables, isotropic and directional): symmetry, diagonal = ordinary variogram; former cross-variogram instances given one-column values.',
     note='As C01.', technique='Coq proof over lists + extracted-model correspondence + table oracle', ref='3 C16'),
+ 'C07': dict(
+    text='Theorems (all sizes, arithmetic over Q): the dense candidates are exactly the columns within range; `closest` returns a subset of the candidates, min(N, #candidates) of them, none farther than a dropped one (stable insertion sort proved a sorted permutation); the assembled rows are the ordinary-kriging equations (sum_j w_j gamma_ij + mu, unit row = sum of weights); squareform index; bookkeeping of transform: i-th variance with i-th estimate, NaN together, counters = number of NaN, for every list of target results. Tie: per target the neighbour list (exact), the recorded matrix and right-hand side of every solver call (exact placement of the implementation\'s own semivariances), the residual of the returned solution, Z and sigma recomputed in Q from the recorded solution, counters; plus a brute-force solution of the OK system on the raw inputs as oracle.',
+    note='Linear solvers are trusted leaves (residual-checked per call); the sparse option with unbounded-range models is outside the oracle (C09 limits it to bounded-range models).',
+    technique='Coq proof over Q/lists + recorded-solver-call correspondence + brute-force OK oracle', ref='3 C07'),
+ 'C08': dict(
+    text='Theorems valid for ANY solution (w, mu) of the assembled system, all sizes: unit row => weights sum to one; shift invariance; estimate scales with k; scaled semivariances => same weights, mu*c, variance*c; constant field reproduced; the unit vector e_j with mu=0 satisfies every row when the target is observation j (estimate z_j), hence exactness under uniqueness. Tie: C07 correspondence on every set-up + metamorphic runs (exactness incl. duplicated records, shift, scale with sill/nugget k^2, constant field, sign of the variance).',
+    note='PARTIAL: non-negativity of the variance (needs conditional negative definiteness of the model, euclidean metric) is tested, not proved; uniqueness of the solution is a hypothesis; ill-conditioned set-ups (cond > 1e7) are skipped by the metamorphic comparisons.',
+    technique='Coq proof (linear algebra over Q lists) + metamorphic differential runs', ref='3 C08'),
+ 'C09': dict(
+    text='Theorems: transform of a concatenated batch = concatenation; a permutation of the targets permutes (estimate, variance) pairs together; every call starts from the initial state (repeated calls independent); estimate/variance depend only on the multiset of (weight, value) pairs; sparse and dense feed the same `closest`. Tie: C07 correspondence + each set-up re-run for 3 solvers x sparse/dense (bounded-range models) x arrays/MetricSpace targets, as two batches, permuted and repeated on one instance.',
+    note='That each solver returns a solution is a trusted leaf (residual-checked); ill-conditioned set-ups skipped (rounding).',
+    technique='Coq proof (fold/permutation lemmas) + option-matrix differential runs', ref='3 C09'),
+ 'C17': dict(
+    text='Theorems: np.delete keeps every other element in place and removes element i (all lists); the held-out observation is not among the remaining ones (NoDup); nan-aware mse/mae are the means over the estimable residuals. Tie: jackknife scores (rmse, mse, mae; all points or seeded subsets incl. seed 0; isolated points that cannot be estimated) against a brute-force leave-one-out solving the OK system with the point deleted; reproducibility of seeded calls.',
+    note='numpy default_rng determinism trusted (index choice re-derived with the same seed); kriging itself as C07.',
+    technique='Coq proof over lists + brute-force leave-one-out oracle', ref='3 C17'),
+ 'C20': dict(
+    text='Theorems: entry (i,j) of squareform(pdist f) is f(p_i,p_j), symmetric, zero diagonal (all n, via the condensed-index theorem); candidates within range and nearest-N selection as C07. Tie: dense matrices and truncated (sparse) spaces against exact rational distances (stored pairs exactly those with d <= max_dist, incl. max_dist equal to an exactly representable occurring distance), find_closest against the model and against exact nearest-N for every query and N, sparse vs dense, diagonal(idx), probabilistic spaces (true distances of sampled points, reproducible per seed incl. 0).',
+    note='cKDTree / pdist / cdist are trusted leaves whose contract this check tests against exact arithmetic.',
+    technique='Coq proof over lists + exact-rational differential oracle', ref='3 C20'),
 }
 
 PENDING_REASON = 'check not built yet in this round (work in progress; the property is within reach of the technique, see DESIGN.md section 3)'
